@@ -68,16 +68,20 @@ def _crosscheck(path, cap=20):
     return True, notes
 
 
-def _replay(family, tier, obid, model, outdir, tries=6, seed=0):
+def _replay(family, tier, obid, model, outdir, tries=6, seed=0, names=()):
     """Evaluate the obligation natively (GoldilocksField, PoseidonGoldilocksConfig) on the model;
     if the exact model does not reproduce, try the model with its unconstrained inputs randomised
     (the cut-point encoding may pick unreachable intermediate values). Returns (reproduced, model)."""
     rnd = random.Random(seed)
     for attempt in range(tries):
         m = dict(model)
+        m["__random_seed__"] = seed * 1000 + attempt + 1
+        for nm in names:
+            if nm.startswith("delta") and m.get(nm, 0) % P == 0:
+                m[nm] = 1 + (attempt % 3)
         if attempt > 0:
             for k in list(m.keys()):
-                if not k.startswith("delta"):
+                if not k.startswith("delta") and not k.startswith("__"):
                     m[k] = rnd.randrange(P)
             if "delta" in m and m["delta"] % P == 0:
                 m["delta"] = 1
@@ -110,7 +114,7 @@ def run(family, tier, seed, prop, only=None):
     build()
     results = []
     quick = tier != "thorough"
-    timeout_s = 60 if quick else 600
+    timeout_s = 40 if quick else 600
     with common.Scratch("symf-" + family) as outdir:
         t0 = time.time()
         cmd = [BIN, "emit", family, tier, outdir] + ([only] if only else [])
@@ -140,70 +144,69 @@ def run(family, tier, seed, prop, only=None):
             if m["closed"] and m["closed"] != "syntactic":
                 return common.ob(m["id"], verdict="inconclusive", detail=m["closed"], nontrivial=False, **base)
             if m["closed"] == "syntactic":
-                # both sides are the same hash-consed term: nothing left for the solver
-                return common.ob(m["id"], verdict="holds", solver="term identity (hash-consing)", nontrivial=False,
-                                 queries=0, detail="closed syntactically", **base)
+                # the normal forms of both sides coincide: nothing left for the solver
+                return common.ob(m["id"], verdict="holds", solver="normal form (encoder)", nontrivial=False,
+                                 queries=0, detail="closed by normalisation", **base)
             path = os.path.join(outdir, m["smt"])
             # L rendering first (monomials opaque: unsat there is unsat of the exact query);
-            # anything else is re-asked on the exact nonlinear rendering N.
-            ans, dt, raw = _decide(path, timeout_s)
+            # anything else is re-asked on the exact nonlinear rendering N. Each query goes to
+            # z3 5.1 and cvc5 side by side (first decisive answer; the other gets a few seconds to
+            # contradict it).
+            ans, dt, raw, solver, note = common.run_portfolio(open(path).read(), timeout_s)
             queries = 1
             rendering = "L"
-            if ans != "unsat":
+            notes = ["L[" + note + "]"]
+            if ans not in ("unsat", "disagree"):
                 npath = path[:-5] + ".nl.smt2"
-                ans_l = ans
-                ans, dt2, raw2 = _decide(npath, timeout_s if ans_l == "sat" else 2 * timeout_s)
+                ans_l, raw_l = ans, raw
+                ans, dt2, raw, solver, note = common.run_portfolio(open(npath).read(), timeout_s)
+                notes.append("N[" + note + "]")
                 dt += dt2
                 queries += 1
                 rendering = "N"
-                path = npath
-                if ans == "sat":
-                    raw = raw2
-                elif ans != "unsat" and ans_l == "sat":
-                    # exact rendering undecided: try to confirm the L model / random inputs natively
-                    ans = "sat?"
+                if ans not in ("sat", "unsat", "disagree"):
+                    # exact rendering undecided (model construction through the hash symbols and
+                    # congruence systems is hard for the solvers): try to confirm a violation
+                    # natively on the L model / pseudo-random inputs with a unit perturbation.
+                    # Only a native reproduction counts; otherwise the obligation is inconclusive.
+                    ans, raw = "sat?", (raw_l if ans_l == "sat" else "")
+            detail = "rendering %s; %s" % (rendering, " ".join(notes))
+            if ans == "disagree":
+                return common.ob(m["id"], verdict="inconclusive", seconds=dt, solver=solver, queries=queries,
+                                 detail="solver disagreement: " + detail, **base)
             if ans == "unsat":
                 nontrivial = True
-                detail = ""
                 if m["vacuity"]:
                     if witness.get(m["id"]):
-                        detail = "vacuity: hypotheses hold on a concrete native input"
+                        detail += "; vacuity: hypotheses hold on a concrete native input"
                     else:
-                        va, vdt, _ = common.run_solver(open(os.path.join(outdir, m["vacuity"])).read(), common.Z3_NEW, 10)
+                        va, vdt, _, _, _ = common.run_portfolio(open(os.path.join(outdir, m["vacuity"])).read(), 10)
                         queries += 1
                         dt += vdt
                         if va == "unsat":
-                            return common.ob(m["id"], verdict="inconclusive", seconds=dt, solver="z3-5.1.0", queries=queries,
+                            return common.ob(m["id"], verdict="inconclusive", seconds=dt, solver=solver, queries=queries,
                                              detail="vacuous: hypotheses are unsatisfiable", nontrivial=False, **base)
                         nontrivial = va == "sat"
-                        detail = "vacuity twin: %s" % va
-                if not m["single_solver"]:
-                    ok, notes = _crosscheck(path, 5 if quick else 60)
-                    queries += 2
-                    detail += " cross-check " + ",".join(notes)
-                    if not ok:
-                        return common.ob(m["id"], verdict="inconclusive", seconds=dt, solver="z3-5.1.0", queries=queries,
-                                         detail="solver disagreement: " + detail, **base)
-                else:
-                    detail += " single-solver (Inv/domain axioms)"
-                return common.ob(m["id"], verdict="holds", seconds=dt, solver="z3-5.1.0", nontrivial=nontrivial,
-                                 queries=queries, detail=("rendering %s; " % rendering + detail).strip(), **base)
+                        detail += "; vacuity twin: %s" % va
+                return common.ob(m["id"], verdict="holds", seconds=dt, solver=solver, nontrivial=nontrivial,
+                                 queries=queries, detail=detail, **base)
             if ans in ("sat", "sat?"):
                 model_raw = common.parse_model(raw)
                 model = {m["vars"][k]: v % P for k, v in model_raw.items() if k in m["vars"]}
-                ok, mm, out = _replay(family, tier, m["id"], model, outdir, seed=seed)
+                ok, mm, out = _replay(family, tier, m["id"], model, outdir, seed=seed, names=list(m["vars"].values()))
                 if ok:
                     rp = _write_replay(prop, family, tier, m["id"], mm)
-                    return common.ob(m["id"], verdict="violated", seconds=dt, solver="z3-5.1.0",
+                    return common.ob(m["id"], verdict="violated", seconds=dt, solver=solver, queries=queries,
                                      detail="counterexample reproduced natively: " + out[:300], replay=rp,
                                      finding_key=m["finding_key"], **base)
-                return common.ob(m["id"], verdict="inconclusive", seconds=dt, solver="z3-5.1.0", queries=queries,
-                                 detail="%s model did not reproduce natively (%s)" % (
-                                     "linearised (possibly spurious)" if ans == "sat?" else "solver", out[:200]), **base)
-            return common.ob(m["id"], verdict="inconclusive", seconds=dt, solver="z3-5.1.0",
-                             detail="solver answered %s" % ans, **base)
+                return common.ob(m["id"], verdict="inconclusive", seconds=dt, solver=solver, queries=queries,
+                                 detail="%s (%s); %s" % (
+                                     "no solver verdict and no native counterexample found" if ans == "sat?"
+                                     else "solver model did not reproduce natively", out[:200], detail), **base)
+            return common.ob(m["id"], verdict="inconclusive", seconds=dt, solver=solver, queries=queries,
+                             detail="solver answered %s; %s" % (ans, detail), **base)
 
-        with ThreadPoolExecutor(max_workers=common.ncpu()) as ex:
+        with ThreadPoolExecutor(max_workers=max(2, common.ncpu() // 2)) as ex:
             results = list(ex.map(work, metas))
     return results
 
